@@ -492,6 +492,7 @@ func runC12(rec *common.Recorder, idx uint64, seed uint64, selfpipe bool) bool {
 	c.S = c.newServer(objS, rng)
 	c.T = c.newServer(objT, rng)
 	c.H = cc.newHook(objH)
+	c.H.relTwice = rng.Bool()
 	c.tClient = capnp.NewClient(c.T.srv)
 	c.hClient = capnp.NewClient(c.H)
 	// Stall handler: besides opening every gate, cancel the calls whose body
